@@ -201,6 +201,23 @@ theorem free_list_always_clean (acts : List (Option Buf)) (free : List Buf)
         · exact reset_clean b (hok b (by simp))
         · exact hfree x hx
 
+/-! ### snapshot / restore is a public call too -/
+
+/-- A serde round trip of an allocator keeps the occupancy (only the count is stored, and exactly
+that many default buffers are rebuilt) and every rebuilt buffer is clean.  Together with
+`grammar .restore = ε` this makes snapshot/restore one more call kind of `any_history_ok`: the
+restored object starts at the occupancy the original had, i.e. the capacities.  (The serde
+field maps themselves are C14's subject: `Qmc.C14.alloc_snapshot_counts`,
+`Qmc.C14.pool_restored_behaves`.) -/
+theorem restore_keeps_occupancy_clean (t : Ty) (free : List Buf) :
+    (restoreFree t (snapshotFree free)).length = free.length ∧
+      ∀ x ∈ restoreFree t (snapshotFree free), x.clean = true := by
+  refine ⟨by simp [restoreFree, snapshotFree], ?_⟩
+  intro x hx
+  simp only [restoreFree, List.mem_replicate] at hx
+  rw [hx.2]
+  cases t <;> decide
+
 /-! ### non-vacuity and sensitivity -/
 
 /-- The grammars are inhabited by realistic words: an Ising time step with one rejected and no
